@@ -142,18 +142,15 @@ theorem shape_exec (v : Variant) (s : St) (t : Nat) (i : Instr) (rest : List Ins
         · exact shape_of_noCls _ hno
       · exact hall u
   case idleGo c =>
-    simp only [exec, setProg_prog]
+    simp only [exec]
     split
-    · apply shape_append_noCls
-      · first
-          | exact hall _
-          | (split
-             · exact h1
-             · exact hall _)
+    · exact hall u
+    · simp only [setProg_prog]
+      split
       · rfl
-    · split
-      · exact h1
-      · exact hall u
+      · split
+        · exact h1
+        · exact hall u
   case srv a =>
     simp only [exec]
     split
@@ -181,7 +178,7 @@ theorem shape_exec (v : Variant) (s : St) (t : Nat) (i : Instr) (rest : List Ins
     simp only [exec, setProg_prog]
     split
     · exact h1
-    · rw [foldl_setCont2_prog]; exact hall u
+    · rw [updCmd_prog, foldl_setCont2_prog]; exact hall u
   case cancelOrphans ks =>
     simp only [exec, setProg_prog]
     split
@@ -228,11 +225,15 @@ theorem shape_step (v : Variant) (s : St) (t : Nat) (hall : Shape s) : Shape (st
   split
   · exact hall
   · split
-    · exact shape_skipCaps s _ hall
+    · split
+      · exact shape_skipCaps s _ hall
+      · exact hall
     · split
       · exact hall
-      · rename_i i rest hs
-        exact shape_exec v s t i rest hs hall
+      · split
+        · exact hall
+        · rename_i i rest hs
+          exact shape_exec v s t i rest hs hall
 
 theorem noCls_map_srv (l : List SrvAct) : noCls (l.map Instr.srv) = true := by
   induction l with
@@ -306,7 +307,7 @@ theorem exec_prog_other (v : Variant) (s : St) (t u : Nat) (i : Instr) (rest : L
       case enabled => rw [setProg_prog, if_neg hu, deliver_prog]
       case close => rw [setProg_prog, if_neg hu]
       case rerr => rw [setProg_prog, if_neg hu]
-  case cancelConts c r => simp only [exec]; rw [setProg_prog, if_neg hu, foldl_setCont2_prog]
+  case cancelConts c r => simp only [exec]; rw [setProg_prog, if_neg hu, updCmd_prog, foldl_setCont2_prog]
   case cancelOrphans ks => simp only [exec]; rw [setProg_prog, if_neg hu, foldl_setCont_prog]
   all_goals
     simp only [exec]
@@ -484,10 +485,16 @@ theorem keep_idleGo {v : Variant} {s : St} (h : Keep s) (t c : Nat) (rest : List
     Keep (exec v s t (.idleGo c) rest) := by
   have hno := noCls_tail_of_head hsh rfl
   simp only [exec]
+  split
+  · exact h
+  rename_i hg
+  have hempty : s.prog (idleTid t) = [] := by
+    simp only [Bool.or_eq_true, not_or, Bool.not_eq_true, Bool.not_eq_false'] at hg
+    exact List.isEmpty_iff.mp (by simpa using hg.1.2)
   refine keep_transfer h (fun d hd => Or.inl hd) (fun d hd => Or.inl hd) (fun d u hu => Or.inl ⟨u, ?_⟩) (fun d hd => hd)
   simp only [setProg_prog]
   split
-  · rename_i e; rw [toks_append]; rw [e] at hu; omega
+  · rename_i e; rw [e, hempty] at hu; simp at hu
   · split
     · rename_i e; rw [e, hs, toks_cons, toks_of_noCls d rest hno] at hu; simp [isTok] at hu
     · exact hu
@@ -546,21 +553,25 @@ theorem keep_step (v : Variant) (s : St) (t : Nat) (hsh : Shape s) (h : Keep s) 
   split
   · exact h
   · split
-    · exact keep_skipCaps h _
+    · split
+      · exact keep_skipCaps h _
+      · exact h
     · split
       · exact h
-      · rename_i i rest hs
-        have hshape : shape (i :: rest) = true := by rw [← hs]; exact hsh t
-        cases hi : special i
-        · exact keep_boring h t i rest hs hshape hi
-        · cases i <;> simp [special] at hi
-          · exact keep_register h t _ rest hs hshape
-          · exact keep_idleGo h t _ rest hs hshape
-          · exact keep_closeSwap h t rest hs
-          · exact keep_loadDone h t _ _ rest hs
-          · exact keep_send h t _ _ _ rest hs
-          · exact keep_delByTag h t _ _ _ rest hs hshape
-          · exact keep_srv h t _ rest hs hshape
+      · split
+        · exact h
+        · rename_i i rest hs
+          have hshape : shape (i :: rest) = true := by rw [← hs]; exact hsh t
+          cases hi : special i
+          · exact keep_boring h t i rest hs hshape hi
+          · cases i <;> simp [special] at hi
+            · exact keep_register h t _ rest hs hshape
+            · exact keep_idleGo h t _ rest hs hshape
+            · exact keep_closeSwap h t rest hs
+            · exact keep_loadDone h t _ _ rest hs
+            · exact keep_send h t _ _ _ rest hs
+            · exact keep_delByTag h t _ _ _ rest hs hshape
+            · exact keep_srv h t _ rest hs hshape
 
 theorem keep_run (v : Variant) (sched : List Nat) (s : St) (hsh : Shape s) (h : Keep s) :
     Keep (run v s sched) ∧ Shape (run v s sched) := by
